@@ -208,7 +208,7 @@ class Refs(Suite):
     go_cmd = "c36"
     coq_imports = "From GoGit Require Import Model.RefSpec Model.RevList Model.PushRules Model.FetchProto."
     quick_n = 170
-    thorough_n = 4000
+    thorough_n = 2000
     coq_chunk = 90
     BUCKETS = [(5, "random"), (2, "prune"), (1, "hash"), (1, "invalid"), (2, "shallow")]
 
@@ -292,6 +292,12 @@ class Refs(Suite):
                 continue                         # two refspecs disagree about this name: not judged
             v, forced = vals[0][0], any(f for _, f in vals)
             got = refs.get(lname)
+            b4 = before.get(lname)
+            if got == ("h", v) and b4 and b4[0] == "h" and b4[1] != v and not forced and not c["shallow"] \
+                    and not lname.startswith("refs/tags/"):
+                # an unforced update of an existing reference must be a fast-forward
+                if not (w.get(b4[1])["t"] == "commit" and w.get(v)["t"] == "commit" and b4[1] in ancestors(w, [v], cut=False)):
+                    return "reference %s moved from %d to %d: not a fast-forward and not forced" % (lname, b4[1], v)
             if got == ("h", v):
                 if v not in have and v not in wants:
                     return "reference %s -> %d: the object is neither held nor wanted" % (lname, v)
@@ -347,7 +353,7 @@ class Neg(Suite):
     go_cmd = "c36"
     coq_imports = "From GoGit Require Import Model.RevList Model.FetchProto."
     quick_n = 40
-    thorough_n = 600
+    thorough_n = 400
     coq_chunk = 20
 
     def gen(self, rng, n, tier):
@@ -445,7 +451,7 @@ class Shallow(Suite):
     go_cmd = "c36"
     coq_imports = "From GoGit Require Import Model.RevList Model.FetchProto."
     quick_n = 80
-    thorough_n = 2500
+    thorough_n = 1500
     coq_chunk = 60
 
     def gen(self, rng, n, tier):
@@ -537,7 +543,7 @@ class Wire(Suite):
     name = "wire"
     go_cmd = "c36"
     quick_n = 3
-    thorough_n = 60
+    thorough_n = 30
 
     def gen(self, rng, n, tier):
         cases = []
